@@ -46,7 +46,9 @@ func VsH_Step() {
 			}
 			plottingIdx = i
 		}
-		if states[i] == engine.Registered && using[i] {
+		if using[i] {
+			// a request for the space may still sit in the plotter queue whatever its present state (duplicate requests,
+			// or a request queued before the state changed)
 			queued[i] = vsFork(2, "queued") == 1
 		}
 	}
